@@ -374,6 +374,7 @@ theorem rtFld_closed (S : StrFns) (camel : Bool) (lv : LevelPred) :
     ∀ (f : Fld) (ku : Bool) (ms M : MDict) (p : String × J), closedF f = true →
       rtFld S camel ku lv ms M f p = rtFld S camel false lv ms M f p
   | .scalar n o, _, _, _, _, _ => by simp [rtFld]
+  | .mapped n o ci fs, _, _, _, _, _ => by simp [rtFld]
   | .nested n o sh ci fs, ku, ms, M, p, h => by
     simp only [closedF, and_true_iff'] at h
     simp only [rtFld, h.1, exFree_closed, kuNext_false, Bool.true_and]
@@ -459,6 +460,7 @@ theorem flat_rtFields (S : StrFns) (camel ku : Bool) (lv : LevelPred) (ms M : MD
       simp only [flatConf, and_true_iff'] at h
       cases f with
       | nested n o sh own fs' => simp at hs
+      | mapped n o ci fs' => simp at hs
       | scalar n o =>
         simp only [rtFields, rtFld, and_true_iff']
         exact ⟨⟨h.1.1, h.1.2⟩, flat_rtFields S camel ku lv ms M fs rest hs.2 h.2⟩
@@ -905,6 +907,43 @@ theorem region_enum_everywhere_example :
     ∧ isOkEq (.ok (serialize cmFns true ceTop none (.obj [("m", .obj [("g_h", .obj [("a_b", .int 1)]), ("y", .int 2)])])))
         (fun d => match d with
           | .obj [("m", .obj [("gH", .obj [("aB", .int 1)]), ("y", .int 2)])] => true
+          | _ => false) = true := by
+  decide
+
+/-! ### structures stored as Map values -/
+
+/-- the class-directed serializer (which serializes the values of a `Map[String, Cls]` field as calls of
+    their own) is `serialize` on every instance without Map-valued fields: all theorems about `serialize`
+    are theorems about what the driver runs -/
+theorem serC_eq_ser (S : StrFns) (camel : Bool) (c : Cls) (ov : Option MDict) (x : J)
+    (hc : conf c.fields x = true) : serializeC S camel c ov x = serialize S camel c ov x :=
+  c07_serC_eq_ser S camel x _ c.fields hc
+
+/-- `class N: q: int; _serialization_mapper = {'q': 'k'}`, `class O: m: Map[String, N]; z: int;
+    _serialization_mapper = {'z': 'Z', 'm': 'M'}` -/
+def mvO : Cls :=
+  { own := [.dict [(.fld "z", .key "Z"), (.fld "m", .key "M")]],
+    fields := [.mapped "m" false { ser := [.dict [(.fld "q", .key "k")]] } [.scalar "q" false], .scalar "z" false] }
+def mvInst : J := .obj [("m", .obj [("x_y", .obj [("q", .int 1)])]), ("z", .int 2)]
+
+/-- Map values (modelled and corresponded; outside the round-trip theorems): the map keys are left alone,
+    the value is written under its own class's keys only (`k`, not `K`: nothing of the containing class
+    passes through), and — former finding `keep-undefined-leak:deserialize_map`, fixed by /repo 73883e4 —
+    the value class is deserialized with the caller's `keep_undefined`: with the default (`False`) the
+    instance comes back as it was; only an explicit `True` keeps the renamed keys (`k` in the value, `M` and
+    `Z` on the open class `O` itself) as attributes -/
+theorem map_values_example :
+    isOkEq (.ok (serializeC upFns false mvO none mvInst))
+        (fun d => match d with
+          | .obj [("M", .obj [("x_y", .obj [("k", .int 1)])]), ("Z", .int 2)] => true
+          | _ => false) = true
+    ∧ isOkEq (deserK upFns false false mvO none false (serializeC upFns false mvO none mvInst))
+        (fun y => match y with
+          | .obj [("m", .obj [("x_y", .obj [("q", .int 1)])]), ("z", .int 2)] => true
+          | _ => false) = true
+    ∧ isOkEq (deserK upFns false true mvO none false (serializeC upFns false mvO none mvInst))
+        (fun y => match y with
+          | .obj [("m", .obj [("x_y", .obj [("q", .int 1), ("k", .int 1)])]), ("z", .int 2), ("M", _), ("Z", _)] => true
           | _ => false) = true := by
   decide
 
